@@ -43,8 +43,10 @@ CLAIMED.update({
         text=("Theorems: every call emits at most one record naming caller, action, secret, version; a value is returned or the state changes only if a "
               "record authorized=true for exactly this call was accepted (the effect depends on the audit oracle, so it cannot precede the record); "
               "every denial leaves one record authorized=false; if the record cannot be written the call fails with no value and no change; an unchanged "
-              "conditional get is silent; list writes one record. Tie: a recording/failing audit sink (Write or Sync failure at a chosen record) that also "
-              "checks the database file still has its pre-call contents when the record arrives. Concurrent appends rest on O_APPEND atomicity (assumption, sampled under C14)."),
+              "conditional get is silent; list writes one record. The record as bytes: a Lean model of encoding/json's string escaping and audit.Entry's layout with theorems that, for all strings, "
+              "the written line reads back as exactly the record written (no field can be forged, hidden or altered by hostile names), distinct records have distinct lines, and the only newline is the terminator. "
+              "Tie: a recording/failing audit sink (Write or Sync failure at a chosen record) that also "
+              "checks the database file still has its pre-call contents when the record arrives; the auditfmt family compares the model's rendering byte for byte with what the real audit.Writer wrote for hostile strings. Concurrent appends rest on O_APPEND atomicity (assumption, sampled under C14)."),
         note=DBNOTE + " Observation: a failed Write poisons encoding/json's Encoder, so the audit writer stays fail-closed until restart; histories end at an injected Write failure.",
         technique="Lean 4 theorems over the proved normal form of a DB step + fault-injecting audit sink", design="8/C06"),
     "C09": dict(
